@@ -485,7 +485,7 @@ func genSetting(t *rapid.T, allowSkip bool) setting {
 		s.layout = rapid.SliceOfN(rapid.SampledFrom(layouts), 0, 2).Draw(t, "layouts")
 	case "attrs", "attrs1", "kv":
 		s.attrs = genOwnAttrs(t)
-		if s.kind == "attrs1" && rapid.Bool().Draw(t, "sharedSlice") {
+		if (s.kind == "attrs1" || s.kind == "kv") && rapid.Bool().Draw(t, "sharedSlice") {
 			// one of a few slice values that the whole case shares; built with spare capacity
 			i := rapid.IntRange(0, 1).Draw(t, "whichShared")
 			s.attrs = sharedExp[i]
@@ -584,6 +584,9 @@ func (w *world) doSet(n *node, s setting) *slog.Entry {
 		}
 		return lg.SetAttrs1(vlib.AttrsOf(s.attrs))
 	case "kv":
+		if s.shared != nil {
+			return lg.Set(s.shared) // the shared list as ONE argument of type Attrs
+		}
 		var args []any
 		for _, a := range vlib.AttrsOf(s.attrs) {
 			args = append(args, a.Key(), a.Value())
@@ -623,6 +626,9 @@ func (w *world) doWith(n *node, s setting, wid int) *slog.Entry {
 		}
 		return lg.WithAttrs1(vlib.AttrsOf(s.attrs))
 	case "kv":
+		if s.shared != nil {
+			return lg.With(s.shared)
+		}
 		var args []any
 		for _, a := range vlib.AttrsOf(s.attrs) {
 			args = append(args, a.Key(), a.Value())
@@ -659,6 +665,9 @@ func toOpt(s setting) any {
 		}
 		return slog.WithAttrs1(vlib.AttrsOf(s.attrs))
 	case "kv":
+		if s.shared != nil {
+			return slog.With(s.shared)
+		}
 		var args []any
 		for _, a := range vlib.AttrsOf(s.attrs) {
 			args = append(args, a.Key(), a.Value())
